@@ -1,0 +1,82 @@
+//go:build verif
+
+package sharedfile
+
+// Contracts for the gvc verifier (/verif). Comment-only; never compiled into
+// a normal build.
+//
+// SharedFile is a monitor on s.mu. Invariant (holds whenever s.mu is free,
+// hence under every schedule, given mutual exclusion):
+//   refs >= 0
+//   closed ==> file == nil
+//   file != nil ==> file.#open                 (the cached handle is open)
+//   refs > 0 && !closed ==> file != nil        (pinned readers have a handle)
+// Property C24: the handle is closed only when no reader holds it (refs == 0)
+// or by the explicit Close of the owner: every call of s.file.Close() outside
+// SharedFile.Close is a call site obligation `refs == 0`.
+
+// The open function stored in the struct returns an open handle or an error.
+//gvc:func field:SharedFile.open
+//gvc:  trusted
+//gvc:  results f err
+//gvc:  ensures opened: err == nil ==> f != nil && f.#open
+//gvc:end
+
+//gvc:func (*SharedFile).Acquire
+//gvc:  props C24
+//gvc:  theory int
+//gvc:  opt coarse
+//gvc:  opt frame args
+//gvc:  results f err
+//gvc:  monitor s invariant refs: s.refs >= 0
+//gvc:  monitor s invariant closedfile: s.closed ==> s.file == nil
+//gvc:  monitor s invariant openfile: s.file != nil ==> s.file.#open
+//gvc:  monitor s invariant pinned: s.refs > 0 && !s.closed ==> s.file != nil
+//gvc:  ensures handed: err == nil ==> f != nil
+//gvc:end
+
+//gvc:func (*SharedFile).Release
+//gvc:  props C24
+//gvc:  theory int
+//gvc:  opt coarse
+//gvc:  opt frame args
+//gvc:  monitor s invariant refs: s.refs >= 0
+//gvc:  monitor s invariant closedfile: s.closed ==> s.file == nil
+//gvc:  monitor s invariant openfile: s.file != nil ==> s.file.#open
+//gvc:  monitor s invariant pinned: s.refs > 0 && !s.closed ==> s.file != nil
+//gvc:  sink Close requires unpinned: s.refs == 0
+//gvc:end
+
+//gvc:func (*SharedFile).ReleaseNow
+//gvc:  props C24
+//gvc:  theory int
+//gvc:  opt coarse
+//gvc:  opt frame args
+//gvc:  monitor s invariant refs: s.refs >= 0
+//gvc:  monitor s invariant closedfile: s.closed ==> s.file == nil
+//gvc:  monitor s invariant openfile: s.file != nil ==> s.file.#open
+//gvc:  monitor s invariant pinned: s.refs > 0 && !s.closed ==> s.file != nil
+//gvc:  sink Close requires unpinned: s.refs == 0
+//gvc:end
+
+//gvc:func (*SharedFile).Close
+//gvc:  props C24
+//gvc:  theory int
+//gvc:  opt coarse
+//gvc:  opt frame args
+//gvc:  monitor s invariant refs: s.refs >= 0
+//gvc:  monitor s invariant closedfile: s.closed ==> s.file == nil
+//gvc:  monitor s invariant openfile: s.file != nil ==> s.file.#open
+//gvc:  monitor s invariant pinned: s.refs > 0 && !s.closed ==> s.file != nil
+//gvc:end
+
+//gvc:func (*SharedFile).Pinned
+//gvc:  props C24
+//gvc:  theory int
+//gvc:  opt coarse
+//gvc:  opt frame args
+//gvc:  monitor s invariant refs: s.refs >= 0
+//gvc:  monitor s invariant closedfile: s.closed ==> s.file == nil
+//gvc:  monitor s invariant openfile: s.file != nil ==> s.file.#open
+//gvc:  monitor s invariant pinned: s.refs > 0 && !s.closed ==> s.file != nil
+//gvc:end
